@@ -229,6 +229,11 @@ def design_models(rep, pid, t):
         rep.add_model("Bsl(N=8,K=5)", vlib.check_model("Bsl", "MC_Bsl.cfg"),
                       "lightness search on the dyadic grid, all (text,bg,radius,target): Contract, FindsWitness")
     if pid == "C04":
+        # the same contract for the REAL constants (N = 255 levels, K = 20 halvings; 2^32 initial states): a one-step inductive
+        # invariant discharged symbolically by Apalache
+        w = vlib.apalache_inductive("ApaBsl")
+        rep.models.append(dict(model="ApaBsl(N=255,K=20) inductive invariant (Apalache)", wall_s=round(w, 1),
+                               note="Init => IndInv and IndInv /\\ Next => IndInv'; IndInv implies Contract (result is nothing or within the tolerance)"))
         rep.add_model("BslAny(K=4)", vlib.check_model("BslAny", "MC_BslAny.cfg"),
                       "lightness search bookkeeping under ARBITRARY validity/dE/contrast answers: Contract")
         rep.add_model("Gac", vlib.check_model("Gac", "MC_Gac.cfg"),
